@@ -676,7 +676,7 @@ func flatCatalogues(c *Ctx) (singles, pairs []gen.Feature) {
 		"collidingImport[sameName]": true, "collidingImport[sameNameSimple]": true, "collidingImport[twoAtOnce]": true, "twoImportsCaseDifferent": true,
 		"selfRecursiveAuxColliding[simple]": true, "auxDiamondColliding[recursive]": true, "auxDiamondAcrossFiles": true, "refAuxSameNameDifferentDirs": true, "refViaPrefixNamed[local]": true, "selfRecursiveAuxFileNamedLikeRoot": true, "collidingImport[threeAtOnce,complex]": true, "keywordNamedProperty[definitions]": true}
 	pairs = gen.Catalogue(three, func(hn string) bool { return rep[hn] }, func(ct gen.Content) bool { return repContent[ct.Label] })
-	repOther := map[string]bool{"twoPathsManglingAlike": true, "pathPrefixOfAnother": true, "twoCollidingImportsSameGeneratedName": true, "twoInlineSameGeneratedName": true, "paramRef": true, "responseRef": true, "pathItemRef": true, "pathItemRefWithAuxSchema": true, "paramRefWithAuxSchema": true, "twoDefsCaseDifferentWithInline": true, "unusedAliasOfCollidingImport": true, "aliasOfNestedCollidingImport": true, "aliasOfCollidingImportManyReferrers": true, "unusedChain2": true, "secondPath": true, "unusedDefinition[a/b]": true, "unusedChain3": true,
+	repOther := map[string]bool{"twoPathsManglingAlike": true, "pathPrefixOfAnother": true, "twoCollidingImportsSameGeneratedName": true, "twoInlineSameGeneratedName": true, "paramRef": true, "responseRef": true, "pathItemRef": true, "pathItemRefWithAuxSchema": true, "paramRefWithAuxSchema": true, "twoDefsCaseDifferentWithInline": true, "unusedAliasOfCollidingImport": true, "aliasOfNestedCollidingImport": true, "collidingImportWhosePointerNameCollides": true, "aliasOfCollidingImportManyReferrers": true, "unusedChain2": true, "secondPath": true, "unusedDefinition[a/b]": true, "unusedChain3": true,
 		"preNamed[thingOAIGen]": true, "preNamed[getPOKBody]": true}
 	for _, f := range gen.OtherFeatures(three) {
 		if repOther[f.Label] {
